@@ -200,6 +200,30 @@ def eval_child_types(args):
 def open_jobs(): return [(d, b, r, m) for d in DOC_OC for b in OC for r in OC for m in ('same', 'empty')]
 
 
+def eval_redefined_simple(ver):
+    """xs:redefine of a simple type (a.xsd defines S with facets, b.xsd redefines S as a restriction of S with other facets, one and two levels): when the redefinition is
+    accepted, every value valid for the redefined S is valid for the original S"""
+    import os, shutil, tempfile, xmlschema
+    d = tempfile.mkdtemp(prefix='verif_c14r_'); bad = []; n = 0
+    try:
+        for kind, facets, values, prim in (('int', INT_FACETS, INT_VALUES, 'xs:integer'), ('str', STR_FACETS, STR_VALUES, 'xs:string')):
+            singles = [[f] for f in facets]
+            for bf in singles:
+                orig = _cls(ver)(f'<xs:schema {XS}><xs:simpleType name="S"><xs:restriction base="{prim}">{facet_xml(bf)}</xs:restriction></xs:simpleType></xs:schema>').types['S']
+                for df in singles + [[]]:
+                    for levels in (1, 2):
+                        n += 1
+                        open(os.path.join(d, 'a.xsd'), 'w').write(f'<xs:schema {XS}><xs:simpleType name="S"><xs:restriction base="{prim}">{facet_xml(bf)}</xs:restriction></xs:simpleType><xs:element name="e" type="S"/></xs:schema>')
+                        open(os.path.join(d, 'b.xsd'), 'w').write(f'<xs:schema {XS}><xs:redefine schemaLocation="a.xsd"><xs:simpleType name="S"><xs:restriction base="S">{facet_xml(df)}</xs:restriction></xs:simpleType></xs:redefine></xs:schema>')
+                        open(os.path.join(d, 'c.xsd'), 'w').write(f'<xs:schema {XS}><xs:redefine schemaLocation="b.xsd"><xs:simpleType name="S"><xs:restriction base="S"/></xs:simpleType></xs:redefine></xs:schema>')
+                        try: s = _cls(ver)(os.path.join(d, 'b.xsd' if levels == 1 else 'c.xsd'))
+                        except xmlschema.XMLSchemaException: continue
+                        wide = [v for v in values if s.is_valid(f'<e>{v}</e>') and not orig.is_valid(v)]
+                        if wide: bad.append(dict(redefined_simple=[ver, kind, bf, df, levels], observed=f'the redefined type accepts {wide} that the original rejects'))
+    finally: shutil.rmtree(d, ignore_errors=True)
+    return n, bad
+
+
 def run(tier, seed, open_findings):
     jobs = []
     for kind, facets in (('int', INT_FACETS), ('str', STR_FACETS)):
@@ -213,6 +237,9 @@ def run(tier, seed, open_findings):
     accepted = sum(1 for r in res if r is not None)
     out = [result('C14.facet_pairs', f'{len(jobs)} (base facets, derived facets, class) triples over integer and string boundary values', len(jobs), failures, exhaustive=True, distinct=accepted,
                   samples=[dict(base=jobs[5][1], derived=jobs[5][2])])]
+    rs = pmap(eval_redefined_simple, ['1.0', '1.1'], chunk=1)
+    out.append(result('C14.redefined_simple_types', 'every single facet of the original x every single facet (or none) of the redefinition x one / two levels of xs:redefine x integer / string values x 2 classes', sum(n_ for n_, _ in rs),
+                      [dict(case=dict(redefined_simple=b['redefined_simple']), observed=b['observed'], required='values(redefined) subset of values(original)') for _, bs in rs for b in bs], exhaustive=True))
     ljobs = [(w, [bf_], [df_], ver) for w in ('attribute', 'child', 'simple-content') for bf_ in INT_FACETS for df_ in INT_FACETS for ver in ('1.0', '1.1')]
     lres = pmap(eval_local_types, ljobs)
     out.append(result('C14.local_simple_types', f'{len(ljobs)} (attribute / child element / simple content, facet of the base local type, facet of the redeclared local type, class): two unrelated local simple types over xs:integer',
@@ -272,6 +299,9 @@ def run(tier, seed, open_findings):
 
 
 def replay(check_name, case):
+    if case.get('redefined_simple'):
+        key = case['redefined_simple']; mine = [b for b in eval_redefined_simple(key[0])[1] if [b['redefined_simple'][1], [list(x) for x in b['redefined_simple'][2]], [list(x) for x in b['redefined_simple'][3]], b['redefined_simple'][4]] == [key[1], [list(x) for x in key[2]], [list(x) for x in key[3]], key[4]]]
+        return dict(ok=not mine, observed=mine[:1], required='values(redefined) subset of values(original)')
     if case.get('chain'):
         r = eval_chain(tuple(case['chain'])); return dict(ok=not r, observed=r, required='derived admits a subset')
     if case.get('local_types'):
